@@ -66,6 +66,19 @@ bool from_json(const rt::JVal &j, Plan11 &p) {
 struct Viol { std::string cls, sig, detail; int step; };
 struct Result { std::vector<Viol> v; uint64_t fp = 0x11; uint64_t bytes = 0; uint64_t updates = 0, finals = 0, misuse = 0, early_finals = 0, zero_chunks = 0, interleaved = 0; bool invalid = false; };
 
+// an invalid output length: just above the limit, and values whose low 8 / 16 / 32 bits look valid
+size_t bad_outlen(uint32_t r) {
+	switch (r % 8) {
+	case 0: return 65 + (r >> 3) % 8;
+	case 1: return 128 + (r >> 3) % 129;
+	case 2: return 256 + 1 + (r >> 3) % 64;            // low byte 1..64
+	case 3: return 512 + 1 + (r >> 3) % 64;
+	case 4: return 65536 + 1 + (r >> 3) % 64;          // low 16 bits 1..64
+	case 5: return ((size_t)1 << 32) + 1 + (r >> 3) % 64; // low 32 bits 1..64
+	case 6: return (size_t)0 - 1 - (r >> 3) % 64;
+	default: return 65 + (r >> 3) % 1000;
+	}
+}
 static const uint8_t CANARY = 0xC7;
 bool canary_ok(const uint8_t *p, size_t n) { for (size_t i = 0; i < n; ++i) if (p[i] != CANARY) return false; return true; }
 
@@ -162,7 +175,7 @@ Result run(const Plan11 &p) {
 			int rc = 0;
 			switch (st.a % 6) {
 			case 0: rc = blake2b(out + 16, 0, msg, 3, nullptr, 0); break;
-			case 1: rc = blake2b(out + 16, 65 + (st.b % 8), msg, 3, nullptr, 0); break;
+			case 1: rc = blake2b(out + 16, bad_outlen(st.b), msg, 3, nullptr, 0); break;
 			case 2: rc = blake2b(out + 16, 1 + st.b % 64, msg, 3, key, 65 + (st.b % 8)); break;
 			case 3: rc = blake2b(out + 16, 1 + st.b % 64, msg, 3, nullptr, 1 + st.b % 64); break;
 			case 4: rc = blake2b(out + 16, 1 + st.b % 64, nullptr, 1 + st.b % 100, nullptr, 0); break;
@@ -178,10 +191,10 @@ Result run(const Plan11 &p) {
 			blake2b_state S; memset(&S, 0x5A, sizeof S);
 			uint8_t key[80] = {7};
 			int rc;
-			if (st.kind == S_BAD_INIT) rc = blake2b_init(&S, (st.a & 1) ? 0 : 65 + st.b % 200);
+			if (st.kind == S_BAD_INIT) rc = blake2b_init(&S, (st.a & 7) == 0 ? 0 : bad_outlen(st.b));
 			else {
 				switch (st.a % 4) {
-				case 0: rc = blake2b_init_key(&S, 0, key, 16); break;
+				case 0: rc = blake2b_init_key(&S, (st.b & 1) ? 0 : bad_outlen(st.b >> 1), key, 16); break;
 				case 1: rc = blake2b_init_key(&S, 32, key, 0); break;
 				case 2: rc = blake2b_init_key(&S, 32, key, 65 + st.b % 8); break;
 				default: rc = blake2b_init_key(&S, 32, nullptr, 16); break;
